@@ -117,7 +117,8 @@ def make_harness(steps_a, steps_b, steps_c, roots=1, max_ticks=40):
 
         menu_c = ['end', 'raise', 'yield_none', 'yield_val']
         menu_b = menu_c + ['call_C', 'waito_C']
-        menu_a = menu_c + ['call_B', 'waito_B', 'waitn_B', 'call_C']
+        # wait by *name* resumes on any event of that name: with several roots in flight that is another root's B by design
+        menu_a = menu_c + (['call_B', 'waito_B', 'waitn_B', 'call_C'] if roots == 1 else ['call_B', 'waito_B', 'call_C'])
 
         class Comp(BaseComponent):
             @handler('A')
@@ -376,16 +377,21 @@ def canaries():
     from harness.common import mutate
     return [
         ('done-handler-not-removed', 'programs', lambda: mutate(M.Manager, 'waitEvent', "yield state\n\n    self.removeHandler(_on_done_handler, '%s_done' % event_name)", "yield state\n"), ['handlers-left']),
-        ('timeout-off-by-one', 'timeout', lambda: mutate(M.Manager, 'waitEvent', 'if state.timeout == 0:', 'if state.timeout <= 1:'), ['timeout-too-early']),
+        ('timeout-off-by-one', 'timeout', lambda: mutate(M.Manager, 'waitEvent', 'if state.timeout == 0:', 'if state.timeout <= 2:'), ['timeout-too-early']),
         ('done-fired-before-generators', 'programs', lambda: mutate(M.Manager, '_eventDone', 'if event.waitingHandlers:\n        return', 'if event.waitingHandlers and not event.alert_done:\n        return'), None),
-        ('resume-registers-twice', 'programs', lambda: mutate(M.Manager, 'waitEvent', 'if state.event == event.parent:', 'if state.event == event.parent or state.event is None:'), None),
+        ('event-handler-not-removed', 'programs', lambda: mutate(M.Manager, 'waitEvent', 'self.removeHandler(_on_event_handler, event_name)\n            event.alert_done = True', 'event.alert_done = True'), ['handlers-left']),
+        ('callvalue-waiting-count', 'nested', lambda: mutate(M.Manager, 'processTask', 'event.waitingHandlers -= 1\n                if value is not None:', 'if value is not None:'), None),
     ]
 
 
 def parts(tier):
     if tier == 'quick':
         return [
-            Part('programs', make_harness(steps_a=2, steps_b=2, steps_c=1), bounds={'steps_A': 2, 'steps_B': 2, 'steps_C': 1, 'roots': 1},
+            Part('programs', make_harness(steps_a=3, steps_b=1, steps_c=1), bounds={'steps_A': 3, 'steps_B': 1, 'steps_C': 1, 'roots': 1},
+                 encoded=ENC, budget_s=80),
+            Part('nested', make_harness(steps_a=1, steps_b=2, steps_c=2), bounds={'steps_A': 1, 'steps_B': 2, 'steps_C': 2, 'roots': 1},
+                 encoded=ENC, budget_s=80),
+            Part('two-roots', make_harness(steps_a=1, steps_b=1, steps_c=1, roots=2), bounds={'steps_A': 1, 'steps_B': 1, 'steps_C': 1, 'roots': 2},
                  encoded=ENC, budget_s=80),
             Part('timeout', make_timeout_harness(), bounds={'T': '[-1,3] (z3 Int)', 'callee_yields': '0..4', 'how': ['call', 'wait by object', 'wait by name', 'wait by name, never fired']},
                  encoded=[M.Manager.waitEvent, M.Manager.processTask, M.Manager.tick], budget_s=60),
